@@ -60,28 +60,67 @@ def findFvOffset (data : Bytes) : Option Nat :=
 
 def mkSection (i : SecInfo) (buf : Bytes) (encap : List Node) : Section := .mk i buf encap
 
+/-- the fixed volume header and the extended header as `NewFirmwareVolume` decodes them
+    (`FreeSpace` is filled in by the file walk) -/
+def fvInfoOf (data : Bytes) (blocks : List Block) (fvOffset : Nat) (resizable : Bool) : FvInfo :=
+  let length := rd data 32 8
+  let headerLen := rd data 48 2
+  let eho := rd data 52 2
+  let hasExt : Bool := eho ≠ 0 ∧ length ≥ 20 ∧ eho < length - 20
+  let ehs := if hasExt then rd data (eho + 16) 4 else 0
+  { fsGuid := slice data 16 16, length := length, signature := rd data 40 4, attrs := rd data 44 4,
+    headerLen := headerLen, checksum := rd data 50 2, extHeaderOffset := eho,
+    reserved := rd data 54 1, revision := rd data 55 1, blocks := blocks,
+    fvName := if hasExt then slice data eho 16 else guidZero, extHeaderSize := ehs,
+    dataOffset := align8 (if hasExt then eho + ehs else headerLen),
+    fvOffset := fvOffset, resizable := resizable, freeSpace := 0 }
+
+/-- the common section header as `NewSection` reads it: `(Size, Type, ExtendedSize, header length)`,
+    including the final "size larger than the buffer" check -/
+def secHeader (buf : Bytes) : Except Err (Nat × Nat × Nat × Nat) :=
+  if buf.length < 4 then .error .err else
+  let size3 := rd buf 0 3
+  let type := rd buf 3 1
+  let szr : Except Err (Nat × Nat) :=
+    if knownSection type then
+      if size3 = 0xFFFFFF then
+        if buf.length < 8 then .error .err
+        else if rd buf 4 4 = 0xFFFFFFFF then .error .err
+        else .ok (rd buf 4 4, 8)
+      else .ok (size3, 4)
+    else .ok (min size3 buf.length, 4)       -- (Q) unknown types are clamped to the buffer
+  match szr with
+  | .error e => .error e
+  | .ok (ext, hs) => if ext > buf.length then .error .err else .ok (size3, type, ext, hs)
+
+/-- the file header as `NewFile` reads it; `none` = free space (erased header) -/
+def fileHeader (buf : Bytes) : Except Err (Option FileInfo) :=
+  if buf.length < 24 then .error .err else
+  let size3 := rd buf 20 3
+  let i0 : FileInfo := { guid := slice buf 0 16, ckHeader := rd buf 16 1, ckFile := rd buf 17 1,
+                         type := rd buf 18 1, attrs := rd buf 19 1, size3 := size3, state := rd buf 23 1,
+                         extSize := size3, dataOffset := 24 }
+  -- (Q) the extended header is selected by Size = FFFFFF alone, the large attribute is ignored
+  let hr : Except Err (Option FileInfo) :=
+    if size3 = 0xFFFFFF then
+      if buf.length < 32 then .error .err
+      else if rd buf 24 8 = 0xFFFFFFFFFFFFFFFF then .ok none
+      else .ok (some { i0 with extSize := rd buf 24 8, dataOffset := 32 })
+    else .ok (some i0)
+  match hr with
+  | .error e => .error e
+  | .ok none => .ok none
+  | .ok (some i) => if i.extSize > buf.length then .error .err else .ok (some i)
+
 mutual
 
 /-- `NewSection(buf, fileOrder)` -/
 def parseSection (h : Hooks) : Nat → Bytes → Nat → St → Except Err (Section × St)
   | 0, _, _, _ => .error .fuel
   | fuel+1, buf, order, st =>
-    if buf.length < 4 then .error .err else
-    let size3 := rd buf 0 3
-    let type := rd buf 3 1
-    -- size and header length
-    let szr : Except Err (Nat × Nat) :=
-      if knownSection type then
-        if size3 = 0xFFFFFF then
-          if buf.length < 8 then .error .err
-          else if rd buf 4 4 = 0xFFFFFFFF then .error .err
-          else .ok (rd buf 4 4, 8)
-        else .ok (size3, 4)
-      else .ok (min size3 buf.length, 4)       -- (Q) unknown types are clamped to the buffer
-    match szr with
+    match secHeader buf with
     | .error e => .error e
-    | .ok (ext, hs) =>
-    if ext > buf.length then .error .err else
+    | .ok (size3, type, ext, hs) =>
     let sbuf := buf.take ext
     let i : SecInfo := { size3 := size3, type := type, extSize := ext, fileOrder := order }
     if type = 0x02 then
@@ -155,35 +194,20 @@ def parseSections (h : Hooks) : Nat → Bytes → Nat → Nat → Nat → St →
 def parseFile (h : Hooks) : Nat → Bytes → St → Except Err (Option File × St)
   | 0, _, _ => .error .fuel
   | fuel+1, buf, st =>
-    if buf.length < 24 then .error .err else
-    let g := slice buf 0 16
-    let size3 := rd buf 20 3
-    let type := rd buf 18 1
-    let i0 : FileInfo := { guid := g, ckHeader := rd buf 16 1, ckFile := rd buf 17 1, type := type,
-                           attrs := rd buf 19 1, size3 := size3, state := rd buf 23 1,
-                           extSize := size3, dataOffset := 24 }
-    -- (Q) the extended header is selected by Size = FFFFFF alone, the large attribute is ignored
-    let hr : Except Err (Option FileInfo) :=
-      if size3 = 0xFFFFFF then
-        if buf.length < 32 then .error .err
-        else if rd buf 24 8 = 0xFFFFFFFFFFFFFFFF then .ok none
-        else .ok (some { i0 with extSize := rd buf 24 8, dataOffset := 32 })
-      else .ok (some i0)
-    match hr with
+    match fileHeader buf with
     | .error e => .error e
     | .ok none => .ok (none, st)
     | .ok (some i) =>
-    if i.extSize > buf.length then .error .err else
     let fbuf := buf.take i.extSize
     let nv : Except Err (Option NvStore) :=
-      if type = 1 ∧ g = guidNVAR then
+      if i.type = 1 ∧ i.guid = guidNVAR then
         if i.dataOffset ≥ fbuf.length then .error .err else .ok (h.nvarParse (fbuf.drop i.dataOffset))
       else .ok none
     match nv with
     | .error e => .error e
     | .ok nvs =>
     let i := { i with nvar := nvs }
-    if ¬ supportedFile type then .ok (some (.mk i fbuf []), st) else
+    if ¬ supportedFile i.type then .ok (some (.mk i fbuf []), st) else
     match parseSections h fuel fbuf i.dataOffset i.extSize 0 st with
     | .error e => .error e
     | .ok (ss, st') => .ok (some (.mk i fbuf ss), st')
@@ -214,29 +238,16 @@ def parseFv (h : Hooks) : Nat → Bytes → Nat → Bool → St → Except Err (
     match readBlocks (data.drop 56) with
     | .error e => .error e
     | .ok blocks =>
-    let fsGuid := slice data 16 16
-    let length := rd data 32 8
-    let attrs := rd data 44 4
-    let headerLen := rd data 48 2
-    let eho := rd data 52 2
-    match setPolarity (polOfAttrs attrs) st with
+    let i := fvInfoOf data blocks fvOffset resizable
+    match setPolarity (polOfAttrs i.attrs) st with
     | .error e => .error e
     | .ok st =>
-    if length > data.length then .error .err else
-    let hasExt : Bool := eho ≠ 0 ∧ length ≥ 20 ∧ eho < length - 20
-    let fvName := if hasExt then slice data eho 16 else guidZero
-    let ehs := if hasExt then rd data (eho + 16) 4 else 0
-    let dataOffset := align8 (if hasExt then eho + ehs else headerLen)
-    let fbuf := data.take length
-    let i : FvInfo := { fsGuid := fsGuid, length := length, signature := rd data 40 4, attrs := attrs,
-                        headerLen := headerLen, checksum := rd data 50 2, extHeaderOffset := eho,
-                        reserved := rd data 54 1, revision := rd data 55 1, blocks := blocks,
-                        fvName := fvName, extHeaderSize := ehs, dataOffset := dataOffset,
-                        fvOffset := fvOffset, resizable := resizable, freeSpace := 0 }
-    if fsGuid ≠ guidFFS2 ∧ fsGuid ≠ guidFFS3 then .ok (.mk i fbuf [], st) else
+    if i.length > data.length then .error .err else
+    let fbuf := data.take i.length
+    if i.fsGuid ≠ guidFFS2 ∧ i.fsGuid ≠ guidFFS3 then .ok (.mk i fbuf [], st) else
     -- (Q) `lh := fv.Length - FileHeaderMinLength` wraps for Length < 24
-    let lh := (length + 18446744073709551616 - 24) % 18446744073709551616
-    match parseFiles h fuel fbuf dataOffset lh length st with
+    let lh := (i.length + 18446744073709551616 - 24) % 18446744073709551616
+    match parseFiles h fuel fbuf i.dataOffset lh i.length st with
     | .error e => .error e
     | .ok (fs, free, st') => .ok (.mk { i with freeSpace := free } fbuf fs, st')
 
